@@ -78,6 +78,11 @@ def run(facts, rep, tier, ctx):
         rep.ob("R13.2", b.id, "panic site inside lock region: %s" % s.desc, False,
                "an undischarged panic site lies inside the critical section opened at %s: a panic there poisons the "
                "lock and every later MemoryFS call panics" % a.line, s.line)
+    # `async fn` resumed after completion is a panic the MIR inventory cannot see (the check is inserted after
+    # mir_built): it is excluded structurally by the stream typestate rule R15.4
+    if any(b.impl and b.impl["self_ty"] == "async_vfs::path::WalkDirIterator" for b in facts.bodies):
+        from . import c15
+        c15.poll_next_rules(facts, rep, D)
     if tier == "thorough":
         clippy_crossref(facts, rep, ctx, sites)
     rep.assume("FileSystem contract: every path a backend receives is \"\" or starts with '/' (the path layer only "
